@@ -369,7 +369,11 @@ class Gen:
         k = rng.choices(kinds, weights=[self.weights[x] for x in kinds])[0]
         ing, ats = self.in_graph(), self.atts_in_graph()
         if k == 'add_node':
-            self.op_new_and_add()
+            if ing and rng.random() < 0.12:
+                # a node that is already in the graph: must be refused, nothing may change
+                self.do(('add_node', rng.choice(ing), rng.choice([None, None, None, 7, self.w.graph.next_node_id + 1])))
+            else:
+                self.op_new_and_add()
         elif k == 'remove_node' and ing:
             self.do(('remove_node', rng.choice(ing)))
         elif k == 'link' and ing:
